@@ -112,6 +112,18 @@ CATALOGUE = [
     ("context-used-while-serializer-alive",
      "    let m = meta();\n    let mut ctx = SerializationContext::new(Vec::<u8>::new());\n    {\n        let mut ser = desert_core::adt::AdtSerializer::new(&m, &mut ctx);\n        ser.finish().unwrap();\n    }\n    let out = ctx.into_output();\n    println!(\"{}\", out.len());\n",
      "    let m = meta();\n    let mut ctx = SerializationContext::new(Vec::<u8>::new());\n    let mut ser = desert_core::adt::AdtSerializer::new(&m, &mut ctx);\n    let out = ctx.into_output();\n    ser.finish().unwrap();\n    println!(\"{}\", out.len());\n", META),
+    ("owned-input-slice-outlives-input",
+     "    let v;\n    {\n        let mut inp = OwnedInput::new(vec![1u8, 2, 3]);\n        v = inp.read_bytes(2).unwrap().to_vec();\n    }\n    println!(\"{:?}\", v);\n",
+     "    let s;\n    {\n        let mut inp = OwnedInput::new(vec![1u8, 2, 3]);\n        s = inp.read_bytes(2).unwrap();\n    }\n    println!(\"{:?}\", s);\n", ""),
+    ("string-by-id-outlives-context",
+     "    let buf = vec![0u8];\n    let s;\n    {\n        let mut ctx = DeserializationContext::new(&buf);\n        ctx.state_mut().store_string(\"a\".to_string());\n        s = ctx.state().get_string_by_id(StringId(1)).map(|x| x.to_string());\n    }\n    println!(\"{:?}\", s);\n",
+     "    let buf = vec![0u8];\n    let s;\n    {\n        let mut ctx = DeserializationContext::new(&buf);\n        ctx.state_mut().store_string(\"a\".to_string());\n        s = ctx.state().get_string_by_id(StringId(1));\n    }\n    println!(\"{:?}\", s);\n", ""),
+    ("try-read-ref-outlives-context",
+     "    let x = String::from(\"x\");\n    let buf = vec![1u8];\n    let k;\n    {\n        let mut ctx = DeserializationContext::new(&buf);\n        ctx.state_mut().store_ref(&x);\n        k = ctx.try_read_ref().unwrap().map(|r| r.is::<String>());\n    }\n    println!(\"{:?}\", k);\n",
+     "    let x = String::from(\"x\");\n    let buf = vec![1u8];\n    let r;\n    {\n        let mut ctx = DeserializationContext::new(&buf);\n        ctx.state_mut().store_ref(&x);\n        r = ctx.try_read_ref().unwrap();\n    }\n    println!(\"{:?}\", r.map(|r| r.is::<String>()));\n", ""),
+    ("context-read-bytes-outlives-context-borrow",
+     "    let buf = vec![1u8, 2, 3];\n    let mut ctx = DeserializationContext::new(&buf);\n    let a = ctx.read_bytes(1).unwrap().to_vec();\n    let b = ctx.read_bytes(1).unwrap().to_vec();\n    println!(\"{:?} {:?}\", a, b);\n",
+     "    let buf = vec![1u8, 2, 3];\n    let mut ctx = DeserializationContext::new(&buf);\n    let a = ctx.read_bytes(1).unwrap();\n    let b = ctx.read_bytes(1).unwrap();\n    println!(\"{:?} {:?}\", a, b);\n", ""),
     ("decoded-value-outlives-input",     # legal only: decoded values are owned
      "    let v: Vec<String>;\n    {\n        let buf = vec![2u8, 2, 97, 0];\n        v = deserialize(&buf).unwrap();\n    }\n    println!(\"{:?}\", v);\n",
      None, ""),
